@@ -209,6 +209,16 @@ pub fn c07(tier: &str, seed: u64, known: &[String]) -> Report {
         // compared in linear light: x^(1/2.2) is ill-conditioned at the gamut boundary (a 1e-9 residue of the inverse matrices moves it by 1e-4)
         let back = [s.r.powf(2.2), s.g.powf(2.2), s.b.powf(2.2)];
         rep.check("C07.oklab.reverse_random", maxabs3(back, lin) <= 2e-6, || format!("oklab ({:e},{:e},{:e}) -> srgb ({:e},{:e},{:e}) want ({:e},{:e},{:e})", lab[0], lab[1], lab[2], s.r, s.g, s.b, want[0], want[1], want[2]));
+        // an in-gamut OkLch value may spell its hue anywhere on the circle (h, h + 2pi, h - 2pi, in [0, 2pi) ...): the
+        // reverse conversion must be the inverse transform for every representative, not only for atan2's range
+        let (cc, hh) = ((lab[1] * lab[1] + lab[2] * lab[2]).sqrt(), lab[2].atan2(lab[1]));
+        for k in [-1.0, 0.0, 1.0] {
+            let h = hh + k * 2.0 * std::f64::consts::PI;
+            let ok = OkLab::from(OkLch { l: lab[0], c: cc, h });
+            rep.check("C07.oklch.reverse_random", maxabs3([ok.l, ok.a, ok.b], lab) <= 1e-9, || format!("oklch ({:e},{:e},{:e}) -> oklab ({:e},{:e},{:e}) want ({:e},{:e},{:e})", lab[0], cc, h, ok.l, ok.a, ok.b, lab[0], lab[1], lab[2]));
+            let x = Xyz::from(OkLch { l: lab[0], c: cc, h }); let x0 = Xyz::from(OkLab { l: lab[0], a: lab[1], b: lab[2] });
+            rep.check("C07.oklch.reverse_random", maxabs3([x.x, x.y, x.z], [x0.x, x0.y, x0.z]) <= 1e-9, || format!("oklch ({:e},{:e},{:e}) -> xyz ({:e},{:e},{:e}) but its oklab -> xyz ({:e},{:e},{:e})", lab[0], cc, h, x.x, x.y, x.z, x0.x, x0.y, x0.z));
+        }
     }
     rep
 }
